@@ -1150,3 +1150,31 @@ Proof.
   destruct (finish_shape matches a sub cur acts rsn) as [[H _]|[r [_ [_ [[k [H _]]|[[k H]|[H _]]]]]]];
     rewrite H; cbn; lia.
 Qed.
+
+(** * Processing-chain order (Gen/Chain.v: the [order=] constants of every registered ChainStep)
+
+    [chain_ids l] is what Agent.__init__'s stable [list.sort()] makes of the steps in registration order. *)
+From Coq Require Import String.
+From DTN Require Import Gen.Chain.
+
+Fixpoint chain_insert (x : Z * string * string) (l : list (Z * string * string)) : list (Z * string * string) :=
+  match l with
+  | [] => [x]
+  | y :: t => if Z.leb (fst (fst x)) (fst (fst y)) then x :: y :: t else y :: chain_insert x t
+  end.
+Definition chain_sort (l : list (Z * string * string)) : list (Z * string * string) := fold_right chain_insert [] l.
+Definition chain_ids (l : list (Z * string * string)) : list (string * string) :=
+  map (fun s => (snd (fst s), snd s)) (chain_sort l).
+
+(** The order Model/BpAgent.v follows: application routing, static routing, reassembly, BPSec verification,
+    application handlers on reception; discovered routes, static routing, BPSec application, fragmentation
+    on transmission. *)
+Lemma chain_order :
+  chain_ids rx_steps =
+    [("admin", "_rx_route"); ("sand", "_rx_route"); ("safe", "_rx_route"); ("agent", "_do_rx_step");
+     ("fragment", "_reassemble"); ("bpsec", "_verify_bcb"); ("bpsec", "_verify_bib");
+     ("admin", "_recv_bundle"); ("sand", "_recv_bundle"); ("safe", "_recv_bundle")]%string
+  /\ chain_ids tx_steps =
+    [("sand", "_tx_route"); ("agent", "_do_tx_step"); ("bpsec", "_apply_bib"); ("bpsec", "_apply_bcb");
+     ("fragment", "_create")]%string.
+Proof. vm_compute. split; reflexivity. Qed.
